@@ -4,6 +4,7 @@ import (
 	"fmt"
 	"go/types"
 	"math"
+	"os"
 	"strconv"
 	"strings"
 
@@ -11,8 +12,9 @@ import (
 )
 
 // Value is one of:
-//   *Term (bool, ints, floats), StrV, StructV, ArrayV, TupleV, PtrV, SliceV, MapV, ChanV,
-//   IfaceV, *ClosureV, *ssa.Function, *ssa.Builtin, NilFunc, TimeV, NativeV
+//
+//	*Term (bool, ints, floats), StrV, StructV, ArrayV, TupleV, PtrV, SliceV, MapV, ChanV,
+//	IfaceV, *ClosureV, *ssa.Function, *ssa.Builtin, NilFunc, TimeV, NativeV
 type Value interface{}
 
 type StrV struct {
@@ -29,15 +31,23 @@ type opaqueStr struct {
 }
 
 type opaquePart struct {
-	lit  string  // literal text
-	dec  *Term   // decimal rendering of a signed/unsigned integer term
+	lit  string // literal text
+	dec  *Term  // decimal rendering of a signed/unsigned integer term
 	uns  bool
 	sym  []*Term // symbolic bytes
 	kind int     // 0 lit, 1 dec, 2 sym, 3 unknown
 }
 
+// curExec: the interpreter running on this goroutine's job (one job per process section); used only to
+// attach a source position to the opaque-string diagnosis.
+var opaqueWhere func() string
+
 func opaqueInspect() {
-	panic(pathEnd{"unsupported", "inspection of an opaque formatted string"})
+	w := ""
+	if opaqueWhere != nil && os.Getenv("GOSYM_DEBUG") != "" {
+		w = opaqueWhere()
+	}
+	panic(pathEnd{"unsupported", "inspection of an opaque formatted string" + w})
 }
 
 type StructV []Value
@@ -470,10 +480,10 @@ func tokenAlphabet(kind int, b byte) bool {
 }
 
 type oItem struct {
-	b    *Term // one byte (when tok == 0)
-	tok  int   // token kind
-	t    *Term
-	uns  bool
+	b   *Term // one byte (when tok == 0)
+	tok int   // token kind
+	t   *Term
+	uns bool
 }
 
 func (e *Exec) flattenOpaque(o *opaqueStr) []oItem {
